@@ -61,6 +61,7 @@ package keeper
 //@ preserves wf: WF(raw)
 //@ preserves [C03] deposits_in_custody: depInv(raw, bal)
 //@ requires signer_ordinary: ordinary(owner)
+//@ requires a2_deposit_valid: len(deposit) == 0 || coinsValid(deposit)
 //@ requires deposit_nonneg: forall d Str :: amt(deposit, d) >= 0
 //@ ensures authorised: err == NoErr ==> (let b := bindOf(old(raw), serviceName, provider) in
 //@      bindFound(old(raw), serviceName, provider) && addrEq(owner, b.Owner) && !b.Available)
@@ -78,6 +79,8 @@ package keeper
 //@ preserves wf: WF(raw)
 //@ preserves [C03] deposits_in_custody: depInv(raw, bal)
 //@ requires signer_ordinary: ordinary(owner)
+//@ requires a2_qos_positive: qos > 0
+//@ requires a2_deposit_valid: coinsValid(deposit)
 //@ requires deposit_nonneg: forall d Str :: amt(deposit, d) >= 0
 //@ requires [C15] valid_uint: 0 <= qos && qos <= 18446744073709551615
 //@ ensures [C15] new_and_defined: err == NoErr ==> defFound(old(raw), serviceName) && !bindFound(old(raw), serviceName, provider)
@@ -98,6 +101,7 @@ package keeper
 //@ modifies raw, bal
 //@ preserves wf: WF(raw)
 //@ requires signer_ordinary: ordinary(owner)
+//@ requires a2_deposit_valid: len(deposit) == 0 || coinsValid(deposit)
 //@ requires deposit_nonneg: forall d Str :: amt(deposit, d) >= 0
 //@ requires valid_uint: 0 <= qos && qos <= 18446744073709551615
 //@ ensures [C05] authorised: err == NoErr ==> bindFound(old(raw), serviceName, provider) && addrEq(owner, bindOf(old(raw), serviceName, provider).Owner)
